@@ -2,7 +2,7 @@
    seal/open (AES-GCM), argon/pbkdf/md5k/shak (key derivations) and rawdec/b64enc (encoding/base64)
    are universally quantified; their assumed laws (Model.v, Section Laws) are explicit premises. *)
 From Common Require Import Base.
-From Crypto Require Import Model Proofs.
+From Crypto Require Import Model Proofs Token.
 Open Scope N_scope.
 
 Section C27.
@@ -126,4 +126,78 @@ Example C27_reject_nonvacuous :
 Proof.
   split; [exact Toy.exact_toy|]. split; [exact Toy.int_ctxt_toy|]. split; [exact Toy.kdf_ideal_toy|].
   vm_compute. repeat split.
+Qed.
+
+(* ======================================================================================
+   Token STRINGS end to end: hex.DecodeString + util.Decrypt + the empty-plaintext test of
+   tokens.Unwrap / tokens.Validate (Token.v). *)
+Section C27_tokens.
+  Variable argon pbkdf : bytes -> bytes -> bytes.
+  Variable md5k shak : bytes -> bytes.
+  Variable seal : bytes -> bytes -> bytes -> bytes.
+  Variable open : bytes -> bytes -> bytes -> option bytes.
+  Notation token_decrypt := (token_decrypt argon pbkdf md5k shak open).
+  Notation token_encrypt := (token_encrypt argon pbkdf md5k shak seal).
+  Notation util_decrypt := (util_decrypt argon pbkdf md5k shak open).
+  Notation util_encrypt := (util_encrypt argon pbkdf md5k shak seal).
+
+  (* the issued token string decrypts to the token text (non-empty JSON) under the same key *)
+  Theorem C27_token_roundtrip :
+    aead_correct seal open ->
+    forall pw salt nonce pt, length salt = salt_len -> length nonce = nonce_len -> pt <> [] ->
+      byte_ok (util_encrypt pw salt nonce pt) ->
+      token_decrypt true pw (token_encrypt pw salt nonce pt) = Ok pt.
+  Proof.
+    intros Hc pw salt nonce pt Hs Hn Hp Hb.
+    exact (token_roundtrip argon pbkdf md5k shak seal open true pw salt nonce pt Hc Hs Hn Hp Hb).
+  Qed.
+
+  (* One-message world: every token STRING that is not, up to the letter case of its hex digits, the
+     issued string is rejected (odd length, non-hex byte, any changed, dropped or added digit), and so
+     is every string under another key.  What is accepted decodes to exactly the issued ciphertext. *)
+  Theorem C27_token_reject :
+    forall pw0 salt0 nonce0 pt0,
+      aead_exact seal open ->
+      aead_int_ctxt open (one_sealed argon pbkdf md5k shak pw0 salt0 nonce0 pt0) ->
+      kdf_ideal argon pbkdf md5k shak ->
+      (forall pw s, (pw = pw0 -> map lower s <> token_encrypt pw0 salt0 nonce0 pt0) ->
+                    token_decrypt true pw s = Error) /\
+      (forall pw s, token_decrypt true pw s <> Error ->
+                    pw = pw0 /\ hexdecode s = Some (util_encrypt pw0 salt0 nonce0 pt0) /\
+                    map lower s = token_encrypt pw0 salt0 nonce0 pt0 /\ token_decrypt true pw s = Ok pt0 /\ pt0 <> []).
+  Proof.
+    intros pw0 salt0 nonce0 pt0 Hex Hint Hkdf. split.
+    - intros pw s H. exact (token_reject argon pbkdf md5k shak seal open pw0 salt0 nonce0 pt0 pw s Hex Hint Hkdf H).
+    - intros pw s H. exact (token_accept_only argon pbkdf md5k shak seal open pw0 salt0 nonce0 pt0 pw s Hex Hint Hkdf H).
+  Qed.
+
+  (* The premise C21_altered_rejected assumes about decryption ("decrypt c = Some n -> c = ciphertext_of n"),
+     as a theorem: under the key pw0 only the issued ciphertext decrypts, and it decrypts to the issued text. *)
+  Theorem C27_decrypt_exact :
+    forall pw0 salt0 nonce0 pt0,
+      aead_exact seal open ->
+      aead_int_ctxt open (one_sealed argon pbkdf md5k shak pw0 salt0 nonce0 pt0) ->
+      kdf_ideal argon pbkdf md5k shak ->
+      forall c p, util_decrypt true pw0 c = Ok p -> c = util_encrypt pw0 salt0 nonce0 pt0.
+  Proof.
+    intros pw0 salt0 nonce0 pt0 Hex Hint Hkdf c p H.
+    assert (Hne : util_decrypt true pw0 c <> Error) by (rewrite H; discriminate).
+    exact (proj2 (util_accept_only argon pbkdf md5k shak seal open pw0 salt0 nonce0 pt0 Hex Hint Hkdf pw0 c Hne)).
+  Qed.
+End C27_tokens.
+
+Example C27_token_nonvacuous :
+  let tok := token_encrypt Toy.argon Toy.pbkdf Toy.md5k Toy.shak Toy.seal Toy.pw0 Toy.salt0 Toy.nonce0 Toy.pt0 in
+  let dec := token_decrypt Toy.argon Toy.pbkdf Toy.md5k Toy.shak Toy.open1 true Toy.pw0 in
+  byte_ok (util_encrypt Toy.argon Toy.pbkdf Toy.md5k Toy.shak Toy.seal Toy.pw0 Toy.salt0 Toy.nonce0 Toy.pt0) /\
+  firstn 8 tok = [102;102;52;53;52;55;51;51]%N (* "ff454733" *) /\
+  dec tok = Ok Toy.pt0 /\
+  dec (70 :: 102 :: skipn 2 tok)%N = Ok Toy.pt0 (* "Ff..." : letter case only *) /\
+  dec (102 :: 101 :: skipn 2 tok)%N = Error (* "fe..." *) /\
+  dec (removelast tok) = Error (* odd length *) /\
+  dec (103 :: skipn 1 tok)%N = Error (* 'g' *) /\
+  dec (tok ++ [48;48])%N = Error /\
+  token_decrypt Toy.argon Toy.pbkdf Toy.md5k Toy.shak Toy.open1 true [112]%N tok = Error.
+Proof.
+  cbv zeta. split; [repeat constructor|]. vm_compute. repeat split.
 Qed.
